@@ -587,17 +587,22 @@ def dom_extend(tier: str, seed: int, opts: dict) -> list[dict]:
     return out
 
 
-def _extend_min(opts: dict) -> int:
+def _extend_min(opts: dict) -> int | None:
+    """The documented minimum: the option, else the smallest multi-qudit
+    gate of the model; None when the model has none (nothing to extend)."""
     if opts.get('min') is not None:
         return opts['min']
     gs = (opts.get('model') or {'gates': ['CNOT', 'U3']})['gates']
-    return min(gate(x).num_qudits for x in gs if gate(x).num_qudits > 1)
+    return min((gate(x).num_qudits for x in gs if gate(x).num_qudits > 1),
+               default=None)
 
 
 def _extend_post(opts: dict, cin: Any, cout: Any, data: Any) -> list:
     if cin.num_qudits == 1:
         return []
     m = _extend_min(opts)
+    if m is None:
+        return _same_ops_post(True)(opts, cin, cout, data)
     small = [op for op in ops_of(cout)
              if is_block(op) and op.num_qudits < m]
     if small:
@@ -608,11 +613,9 @@ def _extend_post(opts: dict, cin: Any, cout: Any, data: Any) -> list:
 
 def _extend_rej(opts: dict, spec: dict, etype: str, msg: str) -> str | None:
     if etype == 'RuntimeError' and 'larger than circuit' in msg:
-        try:
-            if len(spec['radixes']) < _extend_min(opts):
-                return 'documented: minimum size exceeds the circuit width'
-        except ValueError:
-            pass
+        m = _extend_min(opts)
+        if m is not None and len(spec['radixes']) < m:
+            return 'documented: minimum size exceeds the circuit width'
     return None
 
 
